@@ -253,7 +253,9 @@ func runInpkg(r *ev.Run, total *collector, mu *sync.Mutex, thorough bool, on map
 		for i, idx := range pending {
 			list[i] = strconv.Itoa(idx)
 		}
-		outs, err := par.Run(workers, "GOGC=400", "C01_JOBS="+strings.Join(list, ","))
+		scratch := fmt.Sprintf("/dev/shm/verif-c01-%d", os.Getpid())
+		outs, err := par.Run(workers, "GOGC=400", "C01_JOBS="+strings.Join(list, ","), "C01_SCRATCH="+scratch)
+		_ = os.RemoveAll(scratch)
 		started, done := map[int]bool{}, map[int]bool{}
 		mu.Lock()
 		for _, o := range outs {
